@@ -492,6 +492,13 @@ func (g *Gen) leafDomain(t reflect.Type, c ctx) (vals []labeled, kind string, ok
 			max = math.MaxInt64 / int64(u)
 		}
 		vals = append(vals, labeled{"86400units", conv(time.Duration(86400) * u), false}, labeled{"maxunits", conv(time.Duration(max) * u), false})
+		// values the wire field cannot carry: refused, or (if the unit arithmetic allows) carried exactly - never wrapped
+		if wireMaxUnits[c.key()] <= math.MaxUint32 {
+			vals = append(vals, labeled{"out-of-range:maxunits+1", conv(time.Duration(wireMaxUnits[c.key()]+1) * u), false})
+		}
+		if !signedDuration[c.key()] {
+			vals = append(vals, labeled{"out-of-range:-1unit", conv(-u), false})
+		}
 		if signedDuration[c.key()] {
 			vals = append(vals, labeled{"-1unit", conv(-u), false}, labeled{"minunits", conv(time.Duration(math.MinInt64)), false})
 		}
@@ -603,7 +610,11 @@ func (g *Gen) walk(out *[]*Var, t reflect.Type, c ctx, path string, get getter, 
 	}
 	if dom, kind, ok := g.leafDomain(t, c); ok {
 		for _, d := range dom {
-			add(d.label, kind, d.big, setter(d.v))
+			k := kind
+			if strings.HasPrefix(d.label, "out-of-range:") {
+				k = "niloneof" // relaxed: the encoder may refuse it, but what it encodes must decode to the same value
+			}
+			add(d.label, k, d.big, setter(d.v))
 		}
 		if t == tRC || t == tQoS {
 			for _, d := range g.badEnumValues(t) {
